@@ -370,61 +370,54 @@ def rule_types(ctx: Ctx, out: Collector) -> None:
     """VW-5: every synthetic id the builder generates starts with a NodeType value, and by_prefix scans all
     members.  VW-6: no partial Enum(value) conversion of a declared node attribute without a guard."""
     p = ctx.p
-    # ---- VW-5
-    from .bd import _traverse_function
-    trav = _traverse_function(ctx)
-    members = set()
-    for ci in p.classes_by_name.get('NodeType', []):
-        if ci.module.name.endswith('node.enums'):
-            members = {f for f, (a, d) in ci.fields.items() if isinstance(d, ast.Constant)}
-            nt = ci
-    if not members:
+    # ---- VW-5: the ids of the synthetic nodes the builder creates (builder worlds: named and unnamed switch, one-of) are typed by
+    # NodeType.by_prefix, interpreted as written
+    from ..absint import AClass, ARaise, Interp, Oracle, enumerate_outcomes
+    from .bw import Marks, node as mknode, run_build
+    nt = next((ci for ci in p.classes_by_name.get('NodeType', []) if ci.module.name.endswith('node.enums')), None)
+    if nt is None:
         raise AnalysisError('NodeType enum not found')
-    n = 0
-    for node in ast.walk(trav.node):
-        if isinstance(node, ast.Call) and (dotted(node.func) or '').split('.')[-1] == 'generate_node_id' and node.args:
-            n += 1
-            pre = node.args[0]
-            ok = False
-            first = pre
-            if isinstance(pre, ast.JoinedStr) and pre.values and isinstance(pre.values[0], ast.FormattedValue):
-                first = pre.values[0].value
-            t = unparse(first)
-            if t.startswith('NodeType.') and t.endswith('.value') and t.split('.')[1] in members:
-                ok = True
-            cons = f'{trav.module.name}::{trav.qualname}::{unparse(node)[:60]} [prefix is a NodeType value]'
-            if ok:
-                out.ok('VW-5', cons, p.loc(trav, node), f'prefix starts with {t}')
-            else:
-                out.bad('VW-5', cons, p.loc(trav, node), f'the synthetic node id prefix {unparse(pre)} does not start with a NodeType value: '
-                                                         f'NodeType.by_prefix raises for this node and no description can be generated')
-    if n < 2:
-        raise AnalysisError('synthetic id generation not found in the builder (VW-5 anchors vanished)')
     bp = nt.methods.get('by_prefix')
-    cons = f'{nt.module.name}::NodeType.by_prefix::scans every member with startswith'
     if bp is None:
         raise AnalysisError('NodeType.by_prefix not found')
-    params = bp.params()
-    cls_name = params[0] if params else 'cls'
-    scans = []           # (iterable, target, conditions) of every loop / comprehension over the enum
-    for x in ast.walk(bp.node):
-        if isinstance(x, ast.For):
-            conds = [i.test for i in x.body if isinstance(i, ast.If)]
-            scans.append((x.iter, x.target, conds, len([i for i in x.body if not (isinstance(i, ast.Expr) and isinstance(i.value, ast.Constant))]) == len(conds)))
-        elif isinstance(x, ast.comprehension):
-            scans.append((x.iter, x.target, list(x.ifs), True))
-
-    def is_prefix_test(cond, target) -> bool:
-        return isinstance(cond, ast.Call) and isinstance(cond.func, ast.Attribute) and cond.func.attr == 'startswith' \
-            and len(cond.args) == 1 and isinstance(target, ast.Name) and (
-                (isinstance(cond.args[0], ast.Name) and cond.args[0].id == target.id)
-                or unparse(cond.args[0]) in (f'{target.id}.value', f'str({target.id})')) \
-            and isinstance(cond.func.value, ast.Name) and cond.func.value.id in params[1:]
-    good = [sc for sc in scans if isinstance(sc[0], ast.Name) and sc[0].id == cls_name and len(sc[2]) == 1 and is_prefix_test(sc[2][0], sc[1]) and sc[3]]
-    if good and len(scans) == len(good) and not any(isinstance(x, (ast.Break, ast.Continue)) for x in ast.walk(bp.node)):
-        out.ok('VW-5', cons, p.loc(bp, bp.node), 'every member of the enum is tested with value.startswith(member), first match wins')
+    mk = Marks(ctx)
+    decls = {
+        'a named switch': [('p', mk.switch(mknode('S'), [('a', mknode('G'))], 'choice'))],
+        'an unnamed switch': [('p', mk.switch(mknode('S'), [('a', mknode('G'))], None))],
+        'a one-of': [('p', mk.oneof([mknode('G'), mknode('G2')]))],
+    }
+    interp0 = Interp(p, Oracle())
+    values = interp0._to_list(AClass(nt))
+    want_prefix = {'a named switch': 'switch', 'an unnamed switch': 'switch', 'a one-of': 'input_one_of'}
+    n = 0
+    for label, marks in decls.items():
+        ids = set()
+        for o in run_build(ctx, mknode('I'), mknode('O', marks)):
+            if o[0] == 'value':
+                ids |= {x for x in o[1][0].attrs['nodes'] if not (isinstance(x, str) and x.startswith('id:'))}
+        if not ids:
+            raise AnalysisError(f'the builder world with {label} has no synthetic node (VW-5 anchors vanished)')
+        for sid in sorted(ids, key=str):
+            n += 1
+            def run(oracle: Oracle, sid=sid):
+                return Interp(p, oracle).call_unit(bp, [AClass(nt), sid] if not bp.params() or bp.params()[0] != 'cls' else [sid], {}, AClass(nt))
+            got = sorted({str(o[1]) if o[0] == 'value' else f'raises {str(o[1])[:40]}' for o in enumerate_outcomes(run)})
+            cons = f'{nt.module.name}::NodeType.by_prefix::the synthetic node of {label} is typed by its id prefix [prefix is a NodeType value]'
+            if got == [want_prefix[label]] and want_prefix[label] in values:
+                out.ok('VW-5', cons, p.loc(bp, bp.node), f'{sid!r} -> {got[0]}')
+            else:
+                out.bad('VW-5', cons, p.loc(bp, bp.node), f'the id {sid!r} the builder gives the synthetic node of {label} is typed {got} by '
+                        f'NodeType.by_prefix (expected {want_prefix[label]!r}): no description can be generated for a DAG with this construct, '
+                        f'or the node is shown with the wrong type')
+    # an id without any type prefix is refused, not typed by accident
+    def run_none(oracle: Oracle):
+        return Interp(p, oracle).call_unit(bp, ['zzz__1'], {}, AClass(nt))
+    got = sorted({str(o[1]) if o[0] == 'value' else 'raises' for o in enumerate_outcomes(run_none)})
+    cons = f'{nt.module.name}::NodeType.by_prefix::scans every member with startswith'
+    if got == ['raises']:
+        out.ok('VW-5', cons, p.loc(bp, bp.node), f'{n} synthetic ids typed by their prefix; an id without a type prefix raises')
     else:
-        out.bad('VW-5', cons, p.loc(bp, bp.node), 'by_prefix does not test every member of NodeType as a prefix')
+        out.bad('VW-5', cons, p.loc(bp, bp.node), f'by_prefix types an id without a NodeType prefix as {got}')
     # ---- VW-6
     ci = _config_class(ctx)
     hits = _partial_enum_conversions(ci)
